@@ -256,45 +256,51 @@ def compact_family(rep, rule, prog, cg):
     if not tp.anchors(rep, rule, fam):
         return
     lens = fam.LEN[0]
+
+    def proj(sig):
+        out = set()
+        for t in sig:
+            if t[0] in ('w', 'l', 'r') and t[1] == 'varint':
+                out.add(('varint', t[2]))
+            elif t[0] == 'cmp' and not (isinstance(t[2], str) and t[2].startswith('call:')):
+                out.add(t[:3])
+            elif t[0] == 'set':
+                out.add(t[:2] + (('const' if t[2].startswith('const') else 'value'),))
+            elif t[0] == 'eff':
+                out.add(t)
+            elif t[0] == 'w' and t[1] == 'fix':
+                out.add(('fix', t[2]))
+        return out
+
     for n, l in sorted(lens.items()):
         if not n.endswith('_len') or n in ('zero_copy_len',):
             continue
         x = n[:-4]
-        w = fam.W.get('write_' + x)
-        key = '%s|compact|%s' % (rule, x)
-        if w is None:
-            continue
-        rep.functions.update([w.id, l.id])
-        sl, sw = fam.sig(l), fam.sig(w)
-
-        def proj(sig):
-            out = set()
-            for t in sig:
-                if t[0] in ('w', 'l', 'r') and t[1] == 'varint':
-                    out.add(('varint', t[2]))
-                elif t[0] == 'cmp' and not (isinstance(t[2], str) and t[2].startswith('call:')):
-                    out.add(t[:3])
-                elif t[0] == 'set':
-                    out.add(t[:2] + (('const' if t[2].startswith('const') else 'value'),))
-                elif t[0] == 'eff':
-                    out.add(t)
-                elif t[0] == 'w' and t[1] == 'fix':
-                    out.add(('fix', t[2]))
-            return out
-        pl, pw = proj(sl), proj(sw)
-        # double: 8 fixed bytes
-        if x == 'double':
-            lv = len_value(l, prog, cg)
-            if lv == Width(8) and ('fix', 'f64') in pw:
-                rep.ok(rule, key, 'double_len = 8 = write_f64', l.loc())
+        for wlabel, wd in (('', fam.W), ('|LinkedBytes', fam.L)):
+            w = wd.get('write_' + x)
+            key = '%s|compact|%s%s' % (rule, x, wlabel)
+            if w is None:
+                continue
+            rep.functions.update([w.id, l.id])
+            sl, sw = fam.sig(l), fam.sig(w)
+            if wlabel:
+                # the zero-copy branch of the linked writer (threshold test, insert, window bookkeeping) has no counterpart in a length pass
+                sw = [t for t in sw if not (t[0] == 'cmp' and len(t) > 3 and t[3] == 'call:len') and not (t[0] == 'eff' and t[2] in ('insert', 'insert_faststr', 'reserve', 'advance_mut')) and not (t[0] == 'set' and t[1] == 'zero_copy_len')]
+                sl = [t for t in sl if not (t[0] == 'set' and t[1] == 'zero_copy_len') and not (t[0] == 'cmp' and len(t) > 3 and t[3] == 'call:len')]
+            pl, pw = proj(sl), proj(sw)
+            # double: 8 fixed bytes
+            if x == 'double':
+                lv = len_value(l, prog, cg)
+                if lv == Width(8) and ('fix', 'f64') in pw:
+                    rep.ok(rule, key, 'double_len = 8 = write_f64', l.loc())
+                else:
+                    rep.bad(rule, key, l.loc(), 'compact double_len = %s, writer %s' % (lv, sorted(map(str, pw))))
+                continue
+            pw = {t for t in pw if t[0] != 'fix'}
+            if pl == pw:
+                rep.ok(rule, key, 'same varint types, thresholds and state effects (%d tokens)' % len(pl), l.loc())
             else:
-                rep.bad(rule, key, l.loc(), 'compact double_len = %s, writer %s' % (lv, sorted(map(str, pw))))
-            continue
-        pw = {t for t in pw if t[0] != 'fix'}
-        if pl == pw:
-            rep.ok(rule, key, 'same varint types, thresholds and state effects (%d tokens)' % len(pl), l.loc())
-        else:
-            rep.bad(rule, key, l.loc(), 'compact %s_len and write_%s disagree: only in length pass %s; only in writer %s' % (x, x, sorted(map(str, pl - pw)), sorted(map(str, pw - pl))))
+                rep.bad(rule, key, l.loc(), 'compact %s_len and write_%s%s disagree: only in length pass %s; only in writer %s' % (x, x, wlabel.replace('|', ' on '), sorted(map(str, pl - pw)), sorted(map(str, pw - pl))))
     # fixed one-byte / uuid primitives
     for x, want in (('byte', 1), ('i8', 1), ('uuid', 16)):
         l = lens.get(x + '_len')
@@ -369,6 +375,10 @@ def run(ctx):
     # the length pass keeps the compact field-id context / pending bool exactly as the writer does (push old id, then reset)
     tp.compact_typestate(rep, 'R04.t', prog, cg)
     tp.writers_do_not_overflow(rep, 'R04.o', prog, cg)
+    # the hand-written TApplicationException: size() walks the fields in the order encode() writes them (the compact length
+    # pass is order-sensitive through the field-id delta)
+    import c03
+    c03.app_exception_fields(rep, 'R04.e', prog, cg)
     rep.floor('R04.a', 70)
     rep.floor('R04.b', 25)
     rep.floor('R04.d', 20)
